@@ -77,6 +77,7 @@ type inst struct {
 	letVals  map[string]Val
 	loopFrames map[*loopInfo]map[string]*region
 	atNode *vnode
+	addrNames map[string]ssa.Value // address-taken locals by source name (their cells)
 	loopAllocPre map[*loopInfo]string // allocation counter just before each cut loop
 	split    bool // duplicate join blocks per path instead of merging states
 	at       *ssa.BasicBlock // evaluation point for name resolution
